@@ -46,7 +46,7 @@ type ent struct {
 }
 
 var owners = []interface{}{&struct{ n int }{1}, &struct{ n int }{2}, &struct{ n int }{3}}
-var types = []int{1, 2, 4}
+var types = []int{1, 2, 4, 3, 6, 7} // values that share bits: matching is equality, not a mask
 
 func matches(e ent, fo, ft int) bool { // fo -1 = nil owner, ft 0 = any type
 	return (fo < 0 || e.owner == fo) && (ft == 0 || e.typ == ft)
@@ -305,9 +305,9 @@ func c20Seq(ctx *core.Ctx, N int, thorough bool) core.Result {
 				}
 				return true
 			}
-			filters := [][2]int{{-1, 0}, {0, 0}, {1, 0}, {2, 0}, {-1, 1}, {-1, 2}, {-1, 4}, {0, 1}, {1, 2}, {2, 4}, {0, 4}, {-1, 3}}
+			filters := [][2]int{{-1, 0}, {0, 0}, {1, 0}, {2, 0}, {-1, 1}, {-1, 2}, {-1, 4}, {0, 1}, {1, 2}, {2, 4}, {0, 4}, {-1, 3}, {-1, 6}, {1, 7}, {-1, 5}, {2, 3}}
 			for i := 0; i < total; i++ {
-				e := ent{id: i + 1, owner: r.Intn(3), typ: types[r.Intn(3)]}
+				e := ent{id: i + 1, owner: r.Intn(3), typ: types[r.Intn(len(types))]}
 				logged = append(logged, e)
 				if !call(func() { lg.Log(e.id, owners[e.owner], e.typ) }) {
 					fail("log-blocks", "Log did not return")
@@ -398,7 +398,7 @@ func c20Conc(ctx *core.Ctx, N, producers int, thorough bool) core.Result {
 				defer wg.Done()
 				r := core.NewRand(ctx.Seed, fmt.Sprintf("c20p/%d/%d/%d", N, round, p))
 				for s := 1; s <= per; s++ {
-					e := ent{id: p*1000000 + s, owner: r.Intn(3), typ: types[r.Intn(3)]}
+					e := ent{id: p*1000000 + s, owner: r.Intn(3), typ: types[r.Intn(len(types))]}
 					st := stamp{e: e, call: atomic.AddInt64(&clock, 1)}
 					lg.Log(e.id, owners[e.owner], e.typ)
 					st.retn = atomic.AddInt64(&clock, 1)
@@ -424,7 +424,7 @@ func c20Conc(ctx *core.Ctx, N, producers int, thorough bool) core.Result {
 						return
 					default:
 					}
-					fo, ft := r.Intn(4)-1, []int{0, 0, 1, 2, 4}[r.Intn(5)]
+					fo, ft := r.Intn(4)-1, []int{0, 0, 1, 2, 4, 3, 6, 5}[r.Intn(8)]
 					c0 := atomic.AddInt64(&clock, 1)
 					got := lg.Filter(ownerArg(fo), ft)
 					es, bad := decode(got)
@@ -579,7 +579,7 @@ func c20Big(ctx *core.Ctx, producers int, thorough bool) core.Result {
 		for p := 0; p < producers; p++ {
 			r := core.NewRand(ctx.Seed, fmt.Sprintf("c20b/%d/%d", round, p))
 			for s := 1; s <= per; s++ {
-				e := ent{id: p*1000000 + s, owner: r.Intn(3), typ: types[r.Intn(3)]}
+				e := ent{id: p*1000000 + s, owner: r.Intn(3), typ: types[r.Intn(len(types))]}
 				ents[e.id] = e
 			}
 		}
@@ -605,7 +605,7 @@ func c20Big(ctx *core.Ctx, producers int, thorough bool) core.Result {
 						return
 					default:
 					}
-					fo, ft := r.Intn(4)-1, []int{0, 0, 1, 2, 4}[r.Intn(5)]
+					fo, ft := r.Intn(4)-1, []int{0, 0, 1, 2, 4, 3, 6, 5}[r.Intn(8)]
 					es, bad := decode(lg.Filter(ownerArg(fo), ft))
 					mu.Lock()
 					if bad != "" {
@@ -716,7 +716,7 @@ func c20Porc(ctx *core.Ctx, N int, thorough bool) core.Result {
 		perProd := 2 + r.Intn(2)
 		for p := 0; p < nprod; p++ {
 			for s := 1; s <= perProd; s++ {
-				e := ent{id: p*100 + s, owner: r.Intn(3), typ: types[r.Intn(3)]}
+				e := ent{id: p*100 + s, owner: r.Intn(3), typ: types[r.Intn(len(types))]}
 				entsByID[e.id] = e
 			}
 		}
@@ -742,7 +742,7 @@ func c20Porc(ctx *core.Ctx, N int, thorough bool) core.Result {
 				defer wg.Done()
 				rr := core.NewRand(ctx.Seed, fmt.Sprintf("c20porcf/%d/%d/%d", N, round, f))
 				for k := 0; k < 3; k++ {
-					fo, ft := rr.Intn(4)-1, []int{0, 0, 1, 2, 4}[rr.Intn(5)]
+					fo, ft := rr.Intn(4)-1, []int{0, 0, 1, 2, 4, 3, 6, 5}[rr.Intn(8)]
 					c := atomic.AddInt64(&clock, 1)
 					es, _ := decode(lg.Filter(ownerArg(fo), ft))
 					rt := atomic.AddInt64(&clock, 1)
